@@ -70,6 +70,9 @@ def opaque_programs(backend):
     ]
 
 
+NOINIT = ("-ftrivial-auto-var-init=uninitialized",)
+
+
 def rows_key(er):
     return (er.end, tuple((t, tuple(cells)) for t, cells in er.rows))
 
@@ -136,7 +139,9 @@ def main(tier="quick"):
         for q in opaque_programs(backend):
             cases.append(Case(pid, backend, q, md + (CPP_FN, CPP_COLL), {"source": "opaque"}, plans=pl))
             pid += 1
-    res = execute(cases, events, chunk_size=60, post=post)
+    # locals are NOT pattern-initialised here (C01 does that, to make a wrong value loud): a local that is read before this event
+    # has written it must hold what the previous event left there, as it does in a real build - that is the history dependence
+    res = execute(cases, events, chunk_size=60, post=post, flags=NOINIT)
     stats = Counter()
     recs = []
     varying = 0
@@ -155,7 +160,7 @@ def main(tier="quick"):
         if confirmed < 10:
             confirmed += 1
             c = by_pid[r["pid"]]
-            o = run_standalone(c, events, [("h", r["history"]), ("f", [r["event"]])])
+            o = run_standalone(c, events, [("h", r["history"]), ("f", [r["event"]])], flags=NOINIT)
             if o.status == "ok" and len(o.jobs) == 2 and o.jobs[0].events and o.jobs[1].events:
                 a = rows_key(o.jobs[0].events[-1]) if len(o.jobs[0].events) == len(r["history"]) else None
                 b = rows_key(o.jobs[1].events[0])
